@@ -492,6 +492,9 @@ func runC13(c *Ctx) error {
 	// the workers that hand frames to a link (switch and router workers, through Send /
 	// SendPriority) must not wait for the remote end: with the link writer stuck in the connection,
 	// further frames are dropped or refused, and the calls return
+	if err := c13OptionalFields(c); err != nil {
+		return err
+	}
 	if err := c13ChosenSequenceNumbers(c); err != nil {
 		return err
 	}
@@ -517,6 +520,65 @@ func runC13(c *Ctx) error {
 	c.Eval()
 	if obsClass(res) != 0 || !replied {
 		c.Violate("after the malformed inputs the router no longer answers a valid request", "stalled", map[string]any{"class": obsClass(res), "replied": replied, "errors": fmt.Sprint(res.routerErrs)})
+	}
+	return nil
+}
+
+// c13OptionalFields: correctly signed announcements whose body leaves optional fields out (no
+// router info, an empty map, zero values) arrive on a long-lived router in between ordinary
+// announcements of the same origin: what the router remembers of the origin from earlier
+// announcements must not turn a sparse one into a crash.
+func c13OptionalFields(c *Ctx) error {
+	for it, n := 0, c.Pick(4, 20); it < n; it++ {
+		e, err := newCtlEnv(c, false)
+		if err != nil {
+			return err
+		}
+		R, P1 := e.R, e.P1
+		origin, err := newGeoIdentity()
+		if err != nil {
+			return err
+		}
+		recv := R.links[P1.id.IP]
+		bodies := []func() []byte{
+			func() []byte {
+				b, _ := cbor.Marshal(&router.AnnouncePingMsg{Info: &m.RouterInfo{Version: "v1"}, ReturnLabel: 9, Expires: time.Now().Add(time.Hour)})
+				return b
+			},
+			func() []byte {
+				b, _ := cbor.Marshal(&router.AnnouncePingMsg{ReturnLabel: 9, Expires: time.Now().Add(time.Hour)})
+				return b
+			},
+			func() []byte { b, _ := cbor.Marshal(map[string]any{}); return b },
+			func() []byte {
+				b, _ := cbor.Marshal(&router.AnnouncePingMsg{Info: &m.RouterInfo{}, ReturnLabel: 9, Expires: time.Now().Add(time.Hour)})
+				return b
+			},
+		}
+		names := []string{"full", "no-info", "empty-map", "empty-info"}
+		var trace []string
+		for step, nSteps := 0, 4+c.Rng.IntN(5); step < nSteps; step++ {
+			k := c.Rng.IntN(len(bodies))
+			if step == 0 {
+				k = 0
+			}
+			base, err := craftPing(pingSpec{from: origin, dst: m.RouterAddress, msgType: frame.RouterHopPingDeprecated, pingType: "announce", body: bodies[k](), seqTime: nextCraftTime()})
+			if err != nil {
+				return err
+			}
+			chain := []c08Rec{{pub: P1.id.PublicAddress, delay: 3, fl: 4, rl: 5, signKey: P1.id.PrivateKey, ctx: c08Ctx(base), flipAt: -1}}
+			data := append(append([]byte(nil), base...), c08Encode(chain)...)
+			e.w.queue = nil
+			res := R.inject(data, recv)
+			c.Eval()
+			trace = append(trace, names[k])
+			c.Count("category:announce-optional-fields/" + names[k])
+			c.NonTrivial(fmt.Sprintf("announce-optional/%v", trace))
+			if res.panicked() {
+				c.Violate(fmt.Sprintf("a correctly signed announcement with optional fields left out (%s) crashed the router worker after the announcements %v of the same origin", names[k], trace[:len(trace)-1]), "panic-optional-fields", map[string]any{"sequence": trace})
+				break
+			}
+		}
 	}
 	return nil
 }
